@@ -280,3 +280,21 @@ PROPS["C11"] = {
             "DataMatrix size, Aztec layer request and PDF417 size class with a coloured scheme. Non-trivial = accepted and coloured; distinct by (call, scheme).",
     "assumptions": COMMON_ASSUMPTIONS,
 }
+
+PROPS["C10"] = {
+    "technique": "property testing + boundary enumeration of every exported entry point against a three-valued representability oracle (MUST_ACCEPT / MUST_REJECT / EITHER) computed from the standards' capacity tables; panics recovered, hangs caught by a 60 s watchdog; result-shape check by reflection",
+    "level_text": "exploration with enumerated boundaries: for every entry point (plain and WithColor) x generated/hostile contents x whole parameter domains (QR 4 levels x 4 modes, PDF417 level byte 0..255, Aztec layers -40..40 and ecc% 0..400, Code 39/93 flags) the call must return without panic, yield exactly one of (barcode, error), accept what the oracle says is representable and reject what it says is not; capacity and capacity+1 of every QR version/level/mode, every DataMatrix size, the 80-rune Code 128 limit, PDF417 and Aztec capacities with homogeneous content are enumerated",
+    "level_note": "trusted: the representability oracle of DESIGN.md appendix A (exact for QR, DataMatrix, all linear symbologies, PDF417/Aztec with homogeneous content; sound bounds and EITHER otherwise); undefined QR level/mode constants and negative Aztec percentages are outside the domain; the Aztec empty payload is not judged (known finding of C03)",
+    "parts": [
+        {"name": "regression", "kind": "plain", "test": "TestReplayDir"},
+        {"name": "boundaries", "kind": "plain", "test": "TestC10Boundaries"},
+        {"name": "rapid", "kind": "rapid", "test": "TestC10Rapid", "checks": {"quick": 60000, "thorough": 2000000}},
+    ],
+    "universes": {"entry_points": [f"{f} {c}" for f in FAMS + ("addchecksum",) for c in ("plain", "colour") if not (f == "addchecksum" and c == "colour")]},
+    "rule": "rapid: entry point drawn uniformly from the 12 encoder families + AddCheckSum; content = hostile constant (sign characters, '*', DEL, U+0080, U+00F0..F5, "
+            "invalid UTF-8, non-ASCII digits, 80/81-rune strings, ...), arbitrary bytes, a valid content with one boundary character spliced in, or a content from "
+            "the family's own generator (any size, incl. capacity +-1); parameters over their whole domains; 1 in 4 through the WithColor variant. boundaries: see "
+            "level text, plus every single byte value in three contexts and every hostile constant at every entry point and parameter variant. Non-trivial = "
+            "rejected-with-reason, or at a capacity boundary, or containing a boundary character; distinct by (entry point, parameters, content).",
+    "assumptions": COMMON_ASSUMPTIONS,
+}
